@@ -122,6 +122,9 @@ def patch_catalogue(dirs):
 
 def mutants(dirs, expect_alarm=True):
     items = patch_catalogue(dirs)
+    only = os.environ.get('LSIM_ONLY')
+    if only:
+        items = [m for m in items if only in os.path.basename(m['dir'])]
     results = []
     ok = True
     for m in items:
@@ -154,7 +157,8 @@ def mutants(dirs, expect_alarm=True):
                                                    ','.join(caught) or '-', '; '.join(x[:110] for x in lines[:2]), time.time() - t0))
         sys.stdout.flush()
     os.makedirs(os.path.join(VERIF, 'selftest'), exist_ok=True)
-    name = 'mutants.json' if expect_alarm else 'neutral.json'
+    name = ('mutants' if expect_alarm else 'neutral') + ('-' + '-'.join(dirs) if dirs != ['mutants', 'seeded'] and expect_alarm else '') + \
+        ('.partial' if only else '') + '.json'
     with open(os.path.join(VERIF, 'selftest', name), 'w') as f:
         json.dump({'lentil_head': subprocess.run(['git', '-C', '/repo', 'rev-parse', '--short', 'HEAD'], capture_output=True, text=True).stdout.strip(),
                    'results': results}, f, indent=1)
